@@ -372,6 +372,71 @@ func C12(c *fw.Ctx) {
 	scaleObjects(c)
 	objLiteralNames(c)
 	objStoreRebinding(c)
+	objThroughArrays(c)
+}
+
+// objThroughArrays: an object stays one object whatever containers it travels through: an object whose
+// property values are of every kind (number, text, empty / non-empty array, empty / nested object holding an
+// array) is put into an array; the array goes through every sequence of up to two of {append, remove of
+// another element, alias, pass through a function, wrap in another array and unwrap}; then the object is
+// written, extended and reduced through one holder and read through the other, both ways
+func objThroughArrays(c *fw.Ctx) {
+	id, num := model.Id, model.Num
+	vals := []struct {
+		name string
+		mk   func() *model.N
+	}{
+		{"number", func() *model.N { return num(7) }},
+		{"text", func() *model.N { return model.Str("s") }},
+		{"empty-array", func() *model.N { return model.Arr() }},
+		{"array", func() *model.N { return model.Arr(num(1), num(2)) }},
+		{"empty-object", func() *model.N { return model.Obj(nil, nil) }},
+		{"object-with-array", func() *model.N { return model.Obj([]string{"in"}, []*model.N{model.Arr(num(1))}) }},
+		{"array-of-object", func() *model.N { return model.Arr(model.Obj([]string{"z"}, []*model.N{num(0)})) }},
+	}
+	steps := []struct {
+		name string
+		mk   func() []*model.N
+	}{
+		{"append", func() []*model.N { return []*model.N{model.ExprS(model.Asg("list", model.CallN(model.BiAppend, id("list"), num(5))))} }},
+		{"append-two", func() []*model.N {
+			return []*model.N{model.ExprS(model.Asg("list", model.CallN(model.BiAppend, id("list"), num(5), model.Obj([]string{"q"}, []*model.N{model.Arr(num(9))}))))}
+		}},
+		{"remove-other", func() []*model.N {
+			return []*model.N{model.ExprS(model.Asg("list", model.CallN(model.BiAppend, id("list"), num(6)))), model.ExprS(model.Asg("list", model.CallN(model.BiRemove, id("list"), num(1))))}
+		}},
+		{"alias", func() []*model.N { return []*model.N{model.Var("other", id("list")), model.ExprS(model.Asg("list", id("other")))} }},
+		{"through-function", func() []*model.N { return []*model.N{model.ExprS(model.Asg("list", model.CallN("same", id("list"))))} }},
+		{"wrap-unwrap", func() []*model.N { return []*model.N{model.ExprS(model.Asg("list", model.Idx(model.Arr(id("list")), num(0))))} }},
+		{"append-remove-append", func() []*model.N { return []*model.N{model.ExprS(model.Asg("list", model.CallN(model.BiAppend, model.CallN(model.BiRemove, model.CallN(model.BiAppend, id("list"), num(1)), num(1)))))} }},
+	}
+	for _, v := range vals {
+		for i, s1 := range steps {
+			for j, s2 := range steps {
+				if !c.Mine() {
+					continue
+				}
+				prog := []*model.N{
+					model.Fun("same", []string{"x"}, model.Return(id("x"))),
+					model.Var("o", model.Obj([]string{"n", "row"}, []*model.N{num(1), v.mk()})),
+					model.Var("list", model.Arr(id("o"))),
+				}
+				prog = append(prog, s1.mk()...)
+				if i != j || i < 3 {
+					prog = append(prog, s2.mk()...)
+				}
+				prog = append(prog,
+					model.Print(model.Bin("==", model.Idx(id("list"), num(0)), id("o"))),
+					model.ExprS(model.PAsg(id("o"), "n", num(2))), model.Print(model.Prop(model.Idx(id("list"), num(0)), "n")),
+					model.ExprS(model.PAsg(model.Idx(id("list"), num(0)), "m", num(3))), model.Print(id("o")),
+					model.ExprS(model.CallN(model.BiDelete, id("o"), model.Str("n"))), model.Print(model.CallN(model.BiKeys, model.Idx(id("list"), num(0)))),
+					model.Print(id("list")))
+				judge(c, prog, judgeOpts{SigPrefix: "object-through-arrays|" + v.name + "|" + s1.name + "|" + s2.name})
+				c.R.States++
+				c.R.Transitions++
+			}
+		}
+	}
 }
 
 // objStoreRebinding: a store `T.k = V` (and `T[i] = V`) whose value expression V rebinds what the target
